@@ -530,6 +530,9 @@ func c15Exec(scAny any, c *simcheck.Ctx) *simcheck.Violation {
 		if err := os.WriteFile(filepath.Join(h.w.root, ".dawn", "build", cr.File), data, 0644); err != nil {
 			return simcheck.V(simcheck.EngineError, "write: %v", err)
 		}
+		if os.Getenv("VERIF_DEBUG_C15") != "" {
+			fmt.Fprintf(os.Stderr, "C15 corruption %d of %s at %d:\n  before: %s\n  after:  %s\n", idx, cr.File, cr.Off, recs[cr.File], data)
+		}
 		kind := "record_byte_flip"
 		if cr.Mask == -1 {
 			kind = "record_truncation"
